@@ -195,6 +195,525 @@ theorem pushCount_opsOf (evs : List Ev) : Spec.pushCount (opsOf evs) = (bytesOf 
   | nil => rfl
   | cons e evs ih => cases e <;> simp [opsOf, bytesOf, Spec.pushCount, ih]
 
+/-! ### one `read` call -/
+
+theorem read_byte_cases (kind : SrcKind) (d : Dec) (b : UInt8) (evs : List Ev) :
+    ((d.push b).2 = .none ∧
+      read { kind := kind, dec := d, evs := .byte b :: evs } =
+        read { kind := kind, dec := (d.push b).1, evs := evs }) ∨
+    (∃ x, outItem (d.push b).2 = [x] ∧
+      read { kind := kind, dec := d, evs := .byte b :: evs } =
+        ({ kind := kind, dec := (d.push b).1, evs := evs }, x)) := by
+  rw [read_byte, Dec.push_eq]
+  rcases hp : d.pushByte b with ⟨d', r⟩
+  cases r with
+  | more => exact Or.inl ⟨rfl, rfl⟩
+  | ready =>
+    have hd := Dec.pushByte_ready hp
+    exact Or.inr ⟨.ok d'.buf.data, rfl, by simp [Dec.borrowBuf, Dec.isDone, hd]⟩
+  | err e => exact Or.inr ⟨.decErr e, rfl, rfl⟩
+  | panic s => exact Or.inr ⟨.panic s, rfl, rfl⟩
+
+theorem read_wouldBlock (kind : SrcKind) (d : Dec) (evs : List Ev) :
+    read { kind := kind, dec := d, evs := .wouldBlock :: evs } =
+      ({ kind := kind, dec := d, evs := evs }, .ioErr .wouldBlock 0) := rfl
+
+theorem read_interrupted (d : Dec) (evs : List Ev) :
+    read { kind := .io, dec := d, evs := .interrupted :: evs } =
+      read { kind := .io, dec := d, evs := evs } := by
+  simp only [read]; rw [readLoop]
+
+theorem read_other (kind : SrcKind) (d : Dec) (evs : List Ev) :
+    read { kind := kind, dec := d, evs := .other :: evs } =
+      ({ kind := kind, dec := d.reset.1, evs := evs }, .ioErr .other d.reset.2) := rfl
+
+/-! ### the complete behaviour -/
+
+/-- exhausted input, decoder already reset: every entry point gives its idle answer -/
+theorem calls_exhausted {kind : SrcKind} (hk : kind ≠ .eh) (cs : List Call) :
+    ∀ {d : Dec}, Dec.IsReset d →
+      (({ kind := kind, dec := d, evs := [] } : Rdr).calls cs).2 =
+        cs.map (fun c => view c (.ioErr .eof 0)) := by
+  induction cs with
+  | nil => intro d _; rfl
+  | cons c cs ih =>
+    intro d h
+    have h0 : d.reset.2 = 0 := by simp [Dec.reset, h.1, h.2.1]
+    rw [calls_cons, call_eq_read, read_nil hk, h0, List.map_cons]
+    simp only
+    rw [ih (Dec.isReset_reset d)]
+
+/-- Any sequence of `read` / `next` / `read_nb` / `next_nb` calls on a reader over an `io::Read`,
+any events: the `i`-th call presents (`view`) the `i`-th element of `readResults`, and `Eof, 0`
+once these are used up. -/
+theorem calls_eq (evs : List Ev) : ∀ (d : Dec) (cs : List Call),
+    (({ kind := .io, dec := d, evs := evs } : Rdr).calls cs).2 =
+      List.zipWith view cs (padTo (.ioErr .eof 0) (readResults d evs) cs.length) := by
+  induction evs with
+  | nil =>
+    intro d cs
+    cases cs with
+    | nil => rfl
+    | cons c cs =>
+      rw [calls_cons, call_eq_read, read_nil (by simp)]
+      simp only
+      rw [calls_exhausted (by simp) cs (Dec.isReset_reset d)]
+      simp only [readResults, body, endDec_nil, List.nil_append, List.length_cons, padTo_cons,
+        padTo_nil, List.zipWith_cons_cons]
+      congr 1
+      induction cs with
+      | nil => rfl
+      | cons c cs ih => simp [List.replicate_succ, ih]
+  | cons e evs ih =>
+    intro d cs
+    cases cs with
+    | nil => rfl
+    | cons c cs =>
+      cases e with
+      | byte b =>
+        rcases read_byte_cases .io d b evs with ⟨hn, hr⟩ | ⟨x, hx, hr⟩
+        · rw [calls_congr_read hr, ih]
+          simp only [readResults, body, hn, outItem, List.nil_append, endDec_byte]
+        · rw [calls_cons, call_eq_read, hr]
+          simp only
+          rw [ih]
+          simp only [readResults, body, hx, endDec_byte, List.cons_append, List.nil_append,
+            List.length_cons, padTo_cons, List.zipWith_cons_cons]
+      | wouldBlock =>
+        rw [calls_cons, call_eq_read, read_wouldBlock]
+        simp only
+        rw [ih]
+        simp only [readResults, body, endDec_wouldBlock, List.cons_append,
+          List.length_cons, padTo_cons, List.zipWith_cons_cons]
+      | interrupted =>
+        rw [calls_congr_read (read_interrupted d evs), ih]
+        simp only [readResults, body, endDec_interrupted]
+      | other =>
+        rw [calls_cons, call_eq_read, read_other]
+        simp only
+        rw [ih]
+        simp only [readResults, body, endDec_other, List.cons_append,
+          List.length_cons, padTo_cons, List.zipWith_cons_cons]
+
+/-- nothing in `body` is an end-of-input report, `None`, or a non-blocking would-block -/
+theorem body_mem (evs : List Ev) : ∀ (d : Dec) (x : RItem), x ∈ body d evs →
+    x ≠ .none ∧ x ≠ .nbWouldBlock ∧ (∀ n, x ≠ .ioErr .eof n) ∧
+      ∀ n, x = .ioErr .wouldBlock n → n = 0 := by
+  induction evs with
+  | nil => intro d x hx; simp [body] at hx
+  | cons e evs ih =>
+    intro d x hx
+    cases e with
+    | byte b =>
+      simp only [body, List.mem_append] at hx
+      rcases hx with hx | hx
+      · cases ho : (d.push b).2 <;> simp [ho, outItem] at hx <;> subst hx <;> simp
+      · exact ih _ x hx
+    | wouldBlock =>
+      simp only [body, List.mem_cons] at hx
+      rcases hx with rfl | hx
+      · simp
+      · exact ih _ x hx
+    | interrupted => exact ih _ x hx
+    | other =>
+      simp only [body, List.mem_cons] at hx
+      rcases hx with rfl | hx
+      · simp
+      · exact ih _ x hx
+
+theorem map_view_next_body (d : Dec) (evs : List Ev) :
+    (body d evs).map (view .next) = body d evs := by
+  rw [List.map_congr_left, List.map_id]
+  intro x hx
+  have h := (body_mem evs d x hx).2.2.1
+  cases x with
+  | ioErr k n =>
+    cases k with
+    | eof => exact absurd rfl (h n)
+    | wouldBlock => rfl
+    | other => rfl
+  | _ => rfl
+
+/-- `k` successive `next` calls: `results`, then `None` forever -/
+theorem nexts_io (d : Dec) (evs : List Ev) (k : Nat) :
+    (({ kind := .io, dec := d, evs := evs } : Rdr).calls (List.replicate k .next)).2 =
+      padTo .none (results d evs) k := by
+  rw [calls_eq, List.length_replicate]
+  have hl : (padTo (RItem.ioErr .eof 0) (readResults d evs) k).length = k := padTo_length _ _ _
+  have := zipWith_replicate_left' view Call.next (padTo (RItem.ioErr .eof 0) (readResults d evs) k)
+  rw [hl] at this
+  rw [this, map_padTo]
+  simp only [readResults, results, List.map_append, map_view_next_body, List.map_cons, List.map_nil,
+    eofItem]
+  show padTo RItem.none _ k = _
+  cases h : (endDec d evs).reset.2 with
+  | zero =>
+    simp only [if_true]
+    show padTo RItem.none (body d evs ++ [RItem.none]) k = _
+    rw [padTo_snoc_self, List.append_nil]
+  | succ n => simp [view]
+
+/-- `k` successive `read` calls: `readResults`, then `Eof, 0` forever -/
+theorem reads_io (d : Dec) (evs : List Ev) (k : Nat) :
+    (({ kind := .io, dec := d, evs := evs } : Rdr).calls (List.replicate k .read)).2 =
+      padTo (.ioErr .eof 0) (readResults d evs) k := by
+  rw [calls_eq, List.length_replicate]
+  have hl : (padTo (RItem.ioErr .eof 0) (readResults d evs) k).length = k := padTo_length _ _ _
+  have := zipWith_replicate_left' view Call.read (padTo (RItem.ioErr .eof 0) (readResults d evs) k)
+  rw [hl] at this
+  rw [this]
+  show List.map id _ = _
+  rw [List.map_id]
+
+/-! ### erasing would-block and interrupted events -/
+
+/-- remove the `WouldBlock` and `Interrupted` events -/
+def strip : List Ev → List Ev
+  | [] => []
+  | .byte b :: evs => .byte b :: strip evs
+  | .wouldBlock :: evs => strip evs
+  | .interrupted :: evs => strip evs
+  | .other :: evs => .other :: strip evs
+
+/-- remove the would-block results -/
+def dropWB (l : List RItem) : List RItem := l.filter (· ≠ RItem.ioErr .wouldBlock 0)
+
+theorem dropWB_append (a b : List RItem) : dropWB (a ++ b) = dropWB a ++ dropWB b :=
+  List.filter_append ..
+
+theorem opsOf_strip (evs : List Ev) : opsOf (strip evs) = opsOf evs := by
+  induction evs with
+  | nil => rfl
+  | cons e evs ih => cases e <;> simp [strip, opsOf, ih]
+
+theorem bytesOf_strip (evs : List Ev) : bytesOf (strip evs) = bytesOf evs := by
+  induction evs with
+  | nil => rfl
+  | cons e evs ih => cases e <;> simp [strip, bytesOf, ih]
+
+theorem endDec_strip (d : Dec) (evs : List Ev) : endDec d (strip evs) = endDec d evs := by
+  unfold endDec; rw [opsOf_strip]
+
+theorem dropWB_outItem (o : Out) : dropWB (outItem o) = outItem o := by
+  cases o <;> simp [dropWB, outItem]
+
+theorem dropWB_eofItem (d : Dec) : dropWB (eofItem d) = eofItem d := by
+  unfold eofItem; split <;> simp [dropWB]
+
+theorem body_strip (evs : List Ev) : ∀ d : Dec, body d (strip evs) = dropWB (body d evs) := by
+  induction evs with
+  | nil => intro d; rfl
+  | cons e evs ih =>
+    intro d
+    cases e with
+    | byte b => simp only [strip, body, dropWB_append, dropWB_outItem, ih]
+    | wouldBlock => rw [strip, body, ih]; simp [dropWB]
+    | interrupted => rw [strip, body, ih]
+    | other => rw [strip, body, body, ih]; simp [dropWB]
+
+theorem results_strip (d : Dec) (evs : List Ev) :
+    results d (strip evs) = dropWB (results d evs) := by
+  unfold results
+  rw [body_strip, endDec_strip, dropWB_append, dropWB_eofItem]
+
+theorem readResults_strip (d : Dec) (evs : List Ev) :
+    readResults d (strip evs) = dropWB (readResults d evs) := by
+  unfold readResults
+  rw [body_strip, endDec_strip, dropWB_append]
+  simp [dropWB]
+
+theorem count_outItem (o : Out) : (outItem o).count (RItem.ioErr .wouldBlock 0) = 0 := by
+  cases o <;> simp [outItem]
+
+/-- every would-block event surfaces exactly once -/
+theorem count_wb_body (evs : List Ev) : ∀ d : Dec,
+    (body d evs).count (RItem.ioErr .wouldBlock 0) = evs.count .wouldBlock := by
+  induction evs with
+  | nil => intro d; rfl
+  | cons e evs ih =>
+    intro d
+    cases e with
+    | byte b => simp [body, List.count_append, count_outItem, ih]
+    | wouldBlock => simp [body, ih]
+    | interrupted => simp [body, ih]
+    | other => simp [body, ih]
+
+theorem count_wb_results (d : Dec) (evs : List Ev) :
+    (results d evs).count (RItem.ioErr .wouldBlock 0) = evs.count .wouldBlock := by
+  unfold results eofItem
+  rw [List.count_append, count_wb_body]
+  split <;> simp
+
+theorem results_mem (d : Dec) (evs : List Ev) (x : RItem) (hx : x ∈ results d evs) :
+    x ≠ .none ∧ x ≠ .nbWouldBlock ∧ x ≠ .ioErr .eof 0 ∧ ∀ n, x = .ioErr .wouldBlock n → n = 0 := by
+  unfold results eofItem at hx
+  rcases List.mem_append.1 hx with hx | hx
+  · have := body_mem evs d x hx
+    exact ⟨this.1, this.2.1, this.2.2.1 0, this.2.2.2⟩
+  · split at hx
+    · simp at hx
+    · next h0 =>
+      simp only [List.mem_singleton] at hx
+      subst hx
+      refine ⟨by simp, by simp, ?_, by simp⟩
+      intro hc
+      injection hc with _ hc
+      exact h0 hc
+
+theorem body_length_le (evs : List Ev) : ∀ d : Dec, (body d evs).length ≤ evs.length := by
+  induction evs with
+  | nil => intro d; simp [body]
+  | cons e evs ih =>
+    intro d
+    cases e with
+    | byte b =>
+      have := ih (d.push b).1
+      have h1 : (outItem (d.push b).2).length ≤ 1 := by cases (d.push b).2 <;> simp [outItem]
+      simp only [body, List.length_append, List.length_cons]
+      omega
+    | wouldBlock => have := ih d; simp only [body, List.length_cons]; omega
+    | interrupted => have := ih d; simp only [body, List.length_cons]; omega
+    | other => have := ih d.reset.1; simp only [body, List.length_cons]; omega
+
+theorem results_length_le (d : Dec) (evs : List Ev) : (results d evs).length ≤ evs.length + 1 := by
+  have := body_length_le evs d
+  unfold results eofItem
+  rw [List.length_append]
+  split <;> simp <;> omega
+
+theorem take_append_replicate_ge {α : Type} (A : List α) (x : α) {k m : Nat} (h : k ≤ m) :
+    (A ++ List.replicate m x).take k = (A ++ List.replicate k x).take k := by
+  have : List.replicate m x = List.replicate k x ++ List.replicate (m - k) x := by
+    rw [List.replicate_append_replicate]; congr 1; omega
+  rw [this, ← List.append_assoc, List.take_append_of_le_length (by simp)]
+
+/-- among `k + W` calls (`W` = number of would-block results in `T`) the first `k` that are not
+would-blocks are the first `k` of the sequence with the would-blocks erased -/
+theorem dropWB_padTo (T : List RItem) (k : Nat) :
+    (dropWB (padTo .none T (k + T.count (RItem.ioErr .wouldBlock 0)))).take k =
+      padTo .none (dropWB T) k := by
+  generalize hW : T.count (RItem.ioErr .wouldBlock 0) = W
+  have hnp : ∀ l : List RItem, (l.filter (fun a => !decide (a ≠ RItem.ioErr .wouldBlock 0))).length
+      = l.count (RItem.ioErr .wouldBlock 0) := by
+    intro l
+    rw [List.count_eq_countP, List.countP_eq_length_filter]
+    congr 2
+    funext a
+    by_cases h : a = RItem.ioErr .wouldBlock 0 <;> simp [h]
+  unfold padTo dropWB
+  rw [take_filter_take (fun a => decide (a ≠ RItem.ioErr .wouldBlock 0)) _ k W
+    (by rw [hnp, List.count_append, hW, List.count_replicate]; simp) (by simp)]
+  rw [List.filter_append]
+  have : (List.replicate (k + W) RItem.none).filter (fun a => decide (a ≠ RItem.ioErr .wouldBlock 0))
+      = List.replicate (k + W) RItem.none := by
+    rw [List.filter_eq_self]; intro a ha; rw [List.eq_of_mem_replicate ha]; simp
+  rw [this, take_append_replicate_ge _ _ (Nat.le_add_right k W)]
+
+/-! ### a would-block inside one `read` call -/
+
+/-- events that produce no result (bytes answered `Ok(None)`, interrupts) are consumed silently -/
+theorem readLoop_quiet (pre : List Ev) : ∀ (d : Dec) (rest : List Ev), body d pre = [] →
+    readLoop .io d (pre ++ rest) = readLoop .io (endDec d pre) rest := by
+  induction pre with
+  | nil => intro d rest _; rfl
+  | cons e pre ih =>
+    intro d rest hq
+    cases e with
+    | byte b =>
+      simp only [body, List.append_eq_nil_iff] at hq
+      rcases read_byte_cases .io d b (pre ++ rest) with ⟨_, hr⟩ | ⟨x, hx, _⟩
+      · have hr' : readLoop .io d (.byte b :: (pre ++ rest)) =
+            readLoop .io (d.push b).1 (pre ++ rest) := hr
+        rw [List.cons_append, hr', ih _ _ hq.2, endDec_byte]
+      · rw [hq.1] at hx; cases hx
+    | wouldBlock => simp [body] at hq
+    | interrupted =>
+      have hr' : readLoop .io d (.interrupted :: (pre ++ rest)) = readLoop .io d (pre ++ rest) :=
+        read_interrupted d (pre ++ rest)
+      rw [List.cons_append, hr', ih _ _ hq, endDec_interrupted]
+    | other => simp [body] at hq
+
+/-! ### decoders that differ in dead fields only -/
+
+theorem push_equiv {d d' : Dec} (h : Dec.Equiv d d') (b : UInt8) :
+    (d.push b).2 = (d'.push b).2 ∧ Dec.Equiv (d.push b).1 (d'.push b).1 := by
+  have := Dec.step_equiv h (.push b)
+  exact ⟨OpOut.out.inj this.1, this.2⟩
+
+theorem reset_equiv {d d' : Dec} (h : Dec.Equiv d d') :
+    d.reset.2 = d'.reset.2 ∧ Dec.Equiv d.reset.1 d'.reset.1 := by
+  have := Dec.step_equiv h .reset
+  exact ⟨OpOut.reset.inj this.1, this.2⟩
+
+theorem body_equiv (evs : List Ev) : ∀ {d d' : Dec}, Dec.Equiv d d' → body d evs = body d' evs := by
+  induction evs with
+  | nil => intro d d' _; rfl
+  | cons e evs ih =>
+    intro d d' h
+    cases e with
+    | byte b =>
+      have hp := push_equiv h b
+      simp only [body, hp.1, ih hp.2]
+    | wouldBlock => simp only [body, ih h]
+    | interrupted => simp only [body, ih h]
+    | other =>
+      have hr := reset_equiv h
+      simp only [body, hr.1, ih hr.2]
+
+theorem endDec_equiv (evs : List Ev) {d d' : Dec} (h : Dec.Equiv d d') :
+    Dec.Equiv (endDec d evs) (endDec d' evs) := (Dec.run_equiv _ h).2
+
+theorem results_equiv (evs : List Ev) {d d' : Dec} (h : Dec.Equiv d d') :
+    results d evs = results d' evs := by
+  unfold results eofItem
+  rw [body_equiv evs h, (reset_equiv (endDec_equiv evs h)).1]
+
+theorem readResults_equiv (evs : List Ev) {d d' : Dec} (h : Dec.Equiv d d') :
+    readResults d evs = readResults d' evs := by
+  unfold readResults
+  rw [body_equiv evs h, (reset_equiv (endDec_equiv evs h)).1]
+
+/-- a decoder that has just been reset is as good as new -/
+theorem reset_equiv_fresh (d : Dec) : Dec.Equiv d.reset.1 (Dec.fresh d.buf.cap) :=
+  (Dec.norm_reset d).trans (Dec.norm_fresh _).symm
+
+theorem endDec_inv (evs : List Ev) {d : Dec} (h : Dec.Inv d) : Dec.Inv (endDec d evs) :=
+  Dec.run_inv _ h
+
+theorem endDec_cap (evs : List Ev) {d : Dec} (h : Dec.Inv d) : (endDec d evs).buf.cap = d.buf.cap :=
+  Dec.run_cap _ h
+
+/-! ### cutting at an "other" error -/
+
+theorem body_other (d : Dec) (pre post : List Ev) :
+    body d (pre ++ .other :: post) =
+      body d pre ++ [.ioErr .other (endDec d pre).reset.2] ++ body (endDec d pre).reset.1 post := by
+  rw [body_append, body, List.append_assoc]; rfl
+
+theorem endDec_other_split (d : Dec) (pre post : List Ev) :
+    endDec d (pre ++ .other :: post) = endDec (endDec d pre).reset.1 post := by
+  rw [endDec_append, endDec_other]
+
+theorem results_other (d : Dec) (pre post : List Ev) :
+    results d (pre ++ .other :: post) =
+      body d pre ++ [.ioErr .other (endDec d pre).reset.2] ++
+        results (endDec d pre).reset.1 post := by
+  unfold results
+  rw [body_other, endDec_other_split]
+  simp only [List.append_assoc]
+
+theorem readResults_other (d : Dec) (pre post : List Ev) :
+    readResults d (pre ++ .other :: post) =
+      body d pre ++ [.ioErr .other (endDec d pre).reset.2] ++
+        readResults (endDec d pre).reset.1 post := by
+  unfold readResults
+  rw [body_other, endDec_other_split]
+  simp only [List.append_assoc]
+
+/-- after the error the reader continues like a new one on the remaining events -/
+theorem results_other_fresh (cap : Option Nat) (pre post : List Ev) :
+    results (Dec.fresh cap) (pre ++ .other :: post) =
+      body (Dec.fresh cap) pre ++ [.ioErr .other (endDec (Dec.fresh cap) pre).reset.2] ++
+        results (Dec.fresh cap) post := by
+  rw [results_other]
+  congr 1
+  have hc : (endDec (Dec.fresh cap) pre).buf.cap = cap := endDec_cap pre (Dec.inv_fresh cap)
+  have := reset_equiv_fresh (endDec (Dec.fresh cap) pre)
+  rw [hc] at this
+  exact results_equiv post this
+
+theorem readResults_other_fresh (cap : Option Nat) (pre post : List Ev) :
+    readResults (Dec.fresh cap) (pre ++ .other :: post) =
+      body (Dec.fresh cap) pre ++ [.ioErr .other (endDec (Dec.fresh cap) pre).reset.2] ++
+        readResults (Dec.fresh cap) post := by
+  rw [readResults_other]
+  congr 1
+  have hc : (endDec (Dec.fresh cap) pre).buf.cap = cap := endDec_cap pre (Dec.inv_fresh cap)
+  have := reset_equiv_fresh (endDec (Dec.fresh cap) pre)
+  rw [hc] at this
+  exact readResults_equiv post this
+
+/-! ### sources without faults: the reference of C15 -/
+
+theorem opsOf_bytes (s : List UInt8) : opsOf (s.map Ev.byte) = s.map Op.push := by
+  induction s with
+  | nil => rfl
+  | cons b s ih => simp [opsOf, ih]
+
+theorem endDec_bytes (s : List UInt8) (d : Dec) : endDec d (s.map Ev.byte) = (d.pushAll s).1 := by
+  unfold endDec; rw [opsOf_bytes, (Dec.pushAll_eq_run s d).1]
+
+theorem body_bytes (s : List UInt8) : ∀ d : Dec,
+    body d (s.map Ev.byte) = ((d.pushAll s).2.filterMap Out.toItem?).map Item.toR := by
+  induction s with
+  | nil => intro d; rfl
+  | cons b s ih =>
+    intro d
+    rw [List.map_cons, body, ih, Dec.pushAll_cons]
+    simp only
+    cases (d.push b).2 with
+    | none => rw [List.filterMap_cons_none rfl]; rfl
+    | msg m => rw [List.filterMap_cons_some rfl]; rfl
+    | err e => rw [List.filterMap_cons_some rfl]; rfl
+    | panic t => rw [List.filterMap_cons_some rfl]; rfl
+
+theorem eofItem_eq_rEnd {d : Dec} (h : Dec.Inv d) : eofItem d = d.rEnd := by
+  unfold eofItem Dec.rEnd
+  rw [Dec.finalize_eq_reset h]
+  split <;> simp_all
+
+theorem results_bytes (s : List UInt8) {d : Dec} (h : Dec.Inv d) :
+    results d (s.map Ev.byte) = d.allRItems s := by
+  unfold results Dec.allRItems
+  rw [body_bytes, endDec_bytes, eofItem_eq_rEnd (Dec.pushAll_inv s h)]
+
+/-- without "other" errors, erasing would-blocks and interrupts leaves the bytes -/
+theorem strip_eq_bytes (evs : List Ev) (h : Ev.other ∉ evs) :
+    strip evs = (bytesOf evs).map Ev.byte := by
+  induction evs with
+  | nil => rfl
+  | cons e evs ih =>
+    have ih := ih (fun hc => h (List.mem_cons_of_mem _ hc))
+    cases e with
+    | byte b => simp [strip, bytesOf, ih]
+    | wouldBlock => simp [strip, bytesOf, ih]
+    | interrupted => simp [strip, bytesOf, ih]
+    | other => exact absurd List.mem_cons_self h
+
+/-! ### end of input -/
+
+/-- nothing is pending: no byte since the last boundary -/
+theorem reset_eq_zero_iff {d : Dec} (h : Dec.Inv d) :
+    d.reset.2 = 0 ↔ d.st = .done ∨ d.st = .look 0 0 := by
+  have hraw := h.raw_ge
+  have hl := fun disc init => h.look (disc := disc) (init := init)
+  rcases d with ⟨raw, crc, st, zc, buf⟩
+  cases st with
+  | look disc init =>
+    have := hl disc init rfl
+    simp only at this
+    simp only [Dec.reset, this.2.2.2]
+    constructor
+    · intro h0; right; congr 1 <;> omega
+    · rintro (h1 | h1)
+      · cases h1
+      · injection h1 with h1 h2; omega
+  | normal => have := hraw (by simp); simp only at this; simp [Dec.reset]; omega
+  | escChars n => have := hraw (by simp); simp only at this; simp [Dec.reset]; omega
+  | escPayload step q => have := hraw (by simp); simp only at this; simp [Dec.reset]; omega
+  | done => simp [Dec.reset]
+
+theorem finalize_none_iff {d : Dec} (h : Dec.Inv d) : d.finalize.2 = none ↔ d.reset.2 = 0 := by
+  rw [Dec.finalize_eq_reset h]
+  split <;> simp_all
+
+theorem reads_exhausted {kind : SrcKind} (hk : kind ≠ .eh) (k : Nat) {d : Dec}
+    (h : Dec.IsReset d) :
+    (({ kind := kind, dec := d, evs := [] } : Rdr).calls (List.replicate k .read)).2 =
+      List.replicate k (.ioErr .eof 0) := by
+  rw [calls_exhausted hk _ h, List.map_replicate]
+  rfl
+
 end Rdr
 
 end Sml
